@@ -329,3 +329,39 @@ Definition caller_fields_h23 (entry : kv -> list kv) (h : list kv) : list line :
    per cookie, joined by "; " *)
 Definition cookie_header (cur : bytes) (cks : list (bytes * bytes)) : bytes :=
   join_with (bs "; ") ((if is_nil cur then [] else [cur]) ++ map cookie_pair cks).
+
+(* ---------- several exchanges on one connection ---------- *)
+(* reading n requests off a connection, one after the other *)
+Fixpoint observe_seq (n : nat) (w : bytes) : option (list view * bytes) :=
+  match n with
+  | O => Some ([], w)
+  | S k => match observe_h1 w with
+           | Some (v, rest) => match observe_seq k rest with
+                               | Some (vs, r) => Some (v :: vs, r)
+                               | None => None
+                               end
+           | None => None
+           end
+  end.
+
+(* "Expect: 100-continue" (persistConn.readResponse / waitForContinue): what the peer did before
+   the body was due *)
+Inductive continue_answer := Got100 | FinalNo100 (resp_close : bool) | TimerFired.
+
+(* the body is withheld only when a final response arrived and the connection is going to close *)
+Definition expect_sends_body (req_close : bool) (ans : continue_answer) : bool :=
+  match ans with
+  | Got100 | TimerFired => true
+  | FinalNo100 rc => negb (rc || req_close)
+  end.
+
+(* the connection may serve another request afterwards only if neither side closes it *)
+Definition conn_reusable_after (req_close : bool) (ans : continue_answer) : bool :=
+  match ans with
+  | FinalNo100 true => false
+  | _ => negb req_close
+  end.
+
+(* the bytes one exchange leaves on the connection *)
+Definition exchange_wire (head framed_body : bytes) (req_close : bool) (ans : continue_answer) : bytes :=
+  head ++ (if expect_sends_body req_close ans then framed_body else []).
